@@ -3,6 +3,9 @@ import LunarVerif.Spec.C16
 /-!
 Driver for C16: `lvdriver_c16 run` (model outputs) / `lvdriver_c16 judge` (Spec on impl outputs).
 
+op     : `txn ex=<pct(JSON array of strings)> req=<pct(text)> resp=<pct(text)>`  one transaction through the
+         flow-mode collector (request body then response body, one obfuscator);
+         answer `req=<o> resp=<o>` with `<o>` = `ok:<pct(compact JSON)>` | `whole` | `empty` | `other`
 op     : `obf side=<raw|req|resp> ex=<pct(JSON array of strings)> doc=<pct(JSON text)>`
 answer : `ok <pct(compact JSON)>`   the obfuscated document; a hashed leaf is the JSON string
                                     U+0001 `H(` pre-image `)` (the harness maps MD5 values back through
@@ -173,6 +176,43 @@ def fmtOutcome : Outcome → String
   | .empty => "empty"
   | .other => "other"
 
+structure TxnOp where
+  ex : List Str
+  reqText : String
+  respText : String
+
+def parseTxn (ws : List String) : Option TxnOp := do
+  let ex ← (kv ws "ex").bind (fun s => parseEx (pctDec s))
+  let rq ← (kv ws "req").map pctDec
+  let rs ← (kv ws "resp").map pctDec
+  pure ⟨ex, rq, rs⟩
+
+def inputOf (text : String) : Input :=
+  match parseJson text with
+  | some d => .json d
+  | none => .notJson text.isEmpty
+
+def fmtTok : Outcome → String
+  | .doc out => "ok:" ++ pctEnc (printJson out)
+  | .parseError => "err:parse"
+  | .whole => "whole"
+  | .empty => "empty"
+  | .other => "other"
+
+def parseTok (t : String) : Outcome :=
+  if t.startsWith "ok:" then
+    match parseJson (pctDec (t.drop 3).toString) with
+    | some o => .doc o
+    | none => .other
+  else if t == "whole" then .whole
+  else if t == "empty" then .empty
+  else if t == "err:parse" then .parseError
+  else .other
+
+def answerTxn (t : TxnOp) : String :=
+  let (a, b) := runTxn Hm t.ex (inputOf t.reqText) (inputOf t.respText)
+  "req=" ++ fmtTok a ++ " resp=" ++ fmtTok b
+
 def answer (o : Op) : String := fmtOutcome (run Hm o.side o.ex (input o))
 
 def runStep (_ : Unit) (line : String) : Unit × String :=
@@ -181,6 +221,10 @@ def runStep (_ : Unit) (line : String) : Unit × String :=
   | "obf" :: ws =>
     match parseOp ws with
     | some o => ((), answer o)
+    | none => ((), "bad-op")
+  | "txn" :: ws =>
+    match parseTxn ws with
+    | some t => ((), answerTxn t)
     | none => ((), "bad-op")
   | _ => ((), "bad-op")
 
@@ -216,8 +260,30 @@ def judgeOp (o : Op) (out : String) : Option String :=
     | some _, _ => some ("- no-obfuscated-document-for-a-json-body side=" ++ sideName o.side ++ " answer=" ++ pctEnc (short out))
     | none, _ => some ("- non-json-body-not-hidden side=" ++ sideName o.side ++ " answer=" ++ pctEnc (short out))
 
+/-- a transaction: each body against its own side (`Spec.holdsTxn`) -/
+def judgeTxn (t : TxnOp) (out : String) : Option String :=
+  let ws := words out
+  let a := ((kv ws "req").map parseTok).getD .other
+  let b := ((kv ws "resp").map parseTok).getD .other
+  if holdsTxn Hm t.ex (inputOf t.reqText) (inputOf t.respText) (a, b) then none
+  else
+    let bad := if holdsOutcome Hm .req t.ex (inputOf t.reqText) a then "response" else "request"
+    some ("- spec-violated-in-transaction body=" ++ bad ++ " ex=" ++ pctEnc (printJson (.arr (t.ex.map .str)))
+      ++ " req=" ++ pctEnc (short t.reqText) ++ " resp=" ++ pctEnc (short t.respText) ++ " answer=" ++ pctEnc (short out))
+
+def record (s : JudgeSt) (r : Option String) : JudgeSt :=
+  match r with
+  | none => s
+  | some v =>
+    if v.startsWith "- " then (if s.unknown.isSome then s else { s with unknown := some v })
+    else (if s.known.isSome then s else { s with known := some v })
+
 def judgeStep (s : JudgeSt) (op out : String) : JudgeSt :=
   match words op with
+  | "txn" :: ws =>
+    match parseTxn ws with
+    | some t => record s (judgeTxn t out)
+    | none => s
   | "obf" :: ws =>
     match parseOp ws with
     | some o =>
